@@ -52,7 +52,7 @@ UNITS = {
 # ------------------------------------------------------------------------------------------------
 # unit store
 import re as _re
-from gen import make_ghost_arg_rule, make_for_rule
+from gen import make_ghost_arg_rule, make_for_rule, make_break_value_rule
 
 STORE_HEADER = """#![feature(sized_hierarchy)]
 #![allow(unused_imports, dead_code, unused_variables, unused_mut, unused_parens, unused_braces, unused_unsafe)]
@@ -65,7 +65,7 @@ use std::path::{Path, PathBuf};
 WORLD_FNS = ["lock", "pop", "push", "create", "open", "remove_file", "metadata", "append", "sync", "copy", "read", "next", "sorted_fileids",
              "flush", "put", "delete", "get", "merge", "write", "new_active_datafile", "fileids_to_merge",
              "rebuild_storage", "populate_keydir_with_hintfile", "populate_keydir_with_datafile", "set", "del"]
-R_GHOST_ARG = make_ghost_arg_rule(WORLD_FNS, skip_after={"get": ["keydir"], "remove": [], "next": []})
+R_GHOST_ARG = make_ghost_arg_rule(WORLD_FNS, skip_after={"get": ["keydir"]}, only_after={"get": ["reader"], "pop": ["readers"], "push": ["readers"]})
 
 
 def _dashmap_for(iter_text, pat):
@@ -112,7 +112,7 @@ R_FILEIDS_TY = make_seq_rule("R-fileids", "io::Result<impl Iterator<Item = u64>>
 R_STD_IO2 = make_seq_rule("R-std-io", "std::io::", "io::")
 
 R_VIS = make_seq_rule("R-vis", "pub fn sync", "fn sync")
-R_BREAK_VALUE = make_seq_rule("R-break-value", "break result;", "return result;")
+R_BREAK_VALUE = make_break_value_rule(["get"])
 R_INTERIOR_CLOSE = make_seq_rule("R-interior", "fn close(&self)", "fn close(&mut self)")
 STORE_RULES = (R_VIS, R_BREAK_VALUE, R_INTERIOR_CLOSE, R_GHOST_ARG, R_DASHMAP_ITER, R_FOR_COLLECT, R_ARC, R_ARC2, R_ARC3, R_INTERIOR_1, R_INTERIOR_2, R_INTERIOR_3,
                R_INTERIOR_4, R_INTERIOR_5)
@@ -143,6 +143,7 @@ UNITS["store"] = {
         ("raw", "lemmas/store_lemmas.rs", "lemma", {"mod": "bitcask"}),
         ("raw", "lemmas/recover_lemmas.rs", "lemma", {"mod": "bitcask"}),
         ("raw", "lemmas/merge_lemmas.rs", "lemma", {"mod": "bitcask"}),
+        ("raw", "lemmas/mergelog_lemmas.rs", "lemma", {"mod": "bitcask"}),
         ("repo", "src/storage/bitcask.rs", {"mod": "bitcask", "rules": STORE_RULES, "only": BITCASK_ONLY}),
     ],
     "mod_uses": {
